@@ -129,18 +129,12 @@ func (self AnalyzedBoolLiteralExpression) Constant() bool    { return true }
 
 // TODO: add more escapes
 func escapeHmsString(input string) string {
-	output := input
-
-	escapes := map[string]string{
-		"\n": "\\n",
-		"\"": "\\\"",
-		"\t": "\\n",
-	}
-
-	for from, to := range escapes {
-		output = strings.ReplaceAll(output, from, to)
-	}
-
+	output := strings.ReplaceAll(input, "\\", "\\\\") // Must be first: the other replacements insert backslashes.
+	output = strings.ReplaceAll(output, "\"", "\\\"")
+	output = strings.ReplaceAll(output, "\n", "\\n")
+	output = strings.ReplaceAll(output, "\r", "\\r")
+	output = strings.ReplaceAll(output, "\t", "\\t")
+	output = strings.ReplaceAll(output, "\b", "\\b")
 	return output
 
 }
